@@ -2,6 +2,7 @@ package spec
 
 import (
 	"go/ast"
+	"go/types"
 	"sort"
 	"strings"
 
@@ -17,7 +18,7 @@ func onionPayloadEstimate(r *an.Run) {
 	p := r.Prog
 	rt := "routing/route."
 	r.Obl("onion-payload-size-estimate", "MIRROR",
-		"Hop.PayloadSize starts from zero, adds one record (type, length prefix, length) for every field under the same presence test PackHopPayload uses to append that field's record, sizes each from that same field, and finally adds the length prefix of the whole payload and the HMAC; lastHopPayloadSize sizes, in both of its branches, a hop that carries every final-hop-only field newRoute sets (MPP built from the payment total, custom records, metadata; for blinded paths the total amount record), and every RestrictParams literal built from a payment sets every field lastHopPayloadSize reads",
+		"Hop.PayloadSize starts from zero, adds one record (type, length prefix, length) for every field under exactly the presence test PackHopPayload uses to append that field's record (no further condition), with that field's record type and a length computed from that same field (next hop id: 8 bytes, blinding point: a compressed key), adds the length prefix of the whole payload and the HMAC and returns the accumulated sum; lastHopPayloadSize returns, in both of its branches, PayloadSize(0) of a hop literal that carries the HTLC amount, the final expiry and every final-hop-only field newRoute sets (MPP built from the larger of the amount and r.TotalAmt, custom records and metadata of the restrictions; for blinded paths the total amount record) and is not rewritten after the literal; every RestrictParams literal built from a payment sets every field lastHopPayloadSize reads from the payment's own field of that role",
 		"pathfinding admits a route when the estimated payloads fit 1300 bytes; an estimate that misses a record or sizes it from another field returns a route whose onion cannot be built", 24,
 		func(o *an.Obl) {
 			pack := p.Func(rt + "Hop.PackHopPayload")
@@ -65,32 +66,62 @@ func onionPayloadEstimate(r *an.Run) {
 				o.Site("PackHopPayload appends under [%s]", key)
 			}
 			sized := map[string]string{}
+			// presence test -> (record type, length) in canonical form: the
+			// record PackHopPayload appends under that test, sized from the
+			// field it encodes
+			recordOf := map[string][2]string{
+				"h.AmtToForward != 0":     {"record.AmtOnionType", "tlv.SizeTUint64(uint64($recv.AmtToForward))"},
+				"h.OutgoingTimeLock != 0": {"record.LockTimeOnionType", "tlv.SizeTUint64(uint64($recv.OutgoingTimeLock))"},
+				"nextChanID != 0":         {"record.NextHopOnionType", "8"},
+				"h.MPP != nil":            {"record.MPPOnionType", "$recv.MPP.PayloadSize()"},
+				"h.AMP != nil":            {"record.AMPOnionType", "$recv.AMP.PayloadSize()"},
+				"h.EncryptedData != nil":  {"record.EncryptedDataOnionType", "uint64(len($recv.EncryptedData))"},
+				"h.BlindingPoint != nil":  {"record.BlindingPointOnionType", "github.com/btcsuite/btcd/btcec/v2.PubKeyBytesLenCompressed"},
+				"h.Metadata != nil":       {"record.MetadataOnionType", "uint64(len($recv.Metadata))"},
+				"h.TotalAmtMsat != 0":     {"record.TotalAmtMsatBlindedType", "tlv.SizeTUint64(uint64($recv.TotalAmtMsat))"},
+				"custom records":          {"tlv.Type($key($recv.CustomRecords))", "uint64(len($elem($recv.CustomRecords)))"},
+			}
+			notReassigned(o, size, "nextChanID", "h")
 			for _, s := range size.AllCalls(false) {
 				c := s.Node.(*ast.CallExpr)
 				if an.Text(c.Fun) != "addRecord" {
 					continue
 				}
-				gs := presence(size, s)
+				// every condition above the record, not only those on h: a
+				// record that is counted under a narrower test than the one
+				// PackHopPayload writes it under is missing from the estimate
+				var gs []string
+				for _, g := range size.GuardsAt(s) {
+					if g != "!(h.LegacyPayload)" {
+						gs = append(gs, g)
+					}
+				}
+				sort.Strings(gs)
 				key := strings.Join(gs, " && ")
 				if hdr := enclosingLoopHeader(size, c); hdr != "" {
-					key = "custom records"
+					if len(gs) == 0 {
+						key = "custom records"
+					} else {
+						key = "custom records && " + key
+					}
 					if hdr != "$recv.CustomRecords" {
 						o.FailAt(size.ID+"#custom-records-loop", s.Where(), "custom records are sized over %s", hdr)
 					}
 				}
+				if prev, dup := sized[key]; dup {
+					o.FailAt(size.ID+"#sized-twice:"+key, s.Where(), "PayloadSize counts two records under [%s] (the other at %s)", key, prev)
+				}
 				sized[key] = s.Where()
 				a := size.ArgCanon(s)
 				o.Site("PayloadSize adds (%s, %s) under [%s]", a[0], a[1], key)
-				// sized from the field whose presence is tested
-				if strings.HasPrefix(key, "h.") {
-					fld := strings.Fields(strings.TrimPrefix(key, "h."))[0]
-					constSized := map[string]string{"BlindingPoint": "btcec.PubKeyBytesLenCompressed"}
-					if want, ok := constSized[fld]; ok {
-						if !strings.HasSuffix(a[1], strings.TrimPrefix(want, "btcec")) {
-							o.FailAt(size.ID+"#size-of-"+fld, s.Where(), "the %s record is sized %s, expected %s", fld, a[1], want)
-						}
-					} else if !strings.Contains(a[1], "$recv."+fld) {
-						o.FailAt(size.ID+"#size-of-"+fld, s.Where(), "the %s record is sized from %s, expected an expression of h.%s", fld, a[1], fld)
+				// the record type and its length are those of the field whose presence is tested
+				if want, ok := recordOf[key]; ok && len(a) == 2 {
+					if a[0] != want[0] {
+						o.FailAt(size.ID+"#type-of:"+key, s.Where(), "the record counted under [%s] has type %s, expected %s (the varint of the type is part of the size)", key, a[0], want[0])
+					}
+					if a[1] != want[1] {
+						fld := strings.Fields(strings.TrimPrefix(key, "h."))[0]
+						o.FailAt(size.ID+"#size-of-"+fld, s.Where(), "the record counted under [%s] is sized %s, expected %s", key, a[1], want[1])
 					}
 				}
 			}
@@ -127,8 +158,18 @@ func onionPayloadEstimate(r *an.Run) {
 						}
 					}
 				case *ast.AssignStmt:
-					if len(x.Lhs) == 1 && an.Text(x.Lhs[0]) == "payloadSize" {
-						accs = append(accs, x.Tok.String()+" "+an.Text(x.Rhs[0]))
+					for i, l := range x.Lhs {
+						if an.Text(l) == "payloadSize" {
+							rhs := "<tuple>"
+							if len(x.Lhs) == len(x.Rhs) {
+								rhs = an.Text(x.Rhs[i])
+							}
+							accs = append(accs, x.Tok.String()+" "+rhs)
+						}
+					}
+				case *ast.IncDecStmt:
+					if an.Text(x.X) == "payloadSize" {
+						accs = append(accs, x.Tok.String())
 					}
 				}
 				return true
@@ -141,6 +182,21 @@ func onionPayloadEstimate(r *an.Run) {
 			}
 			if strings.Join(accs, " | ") != strings.Join(wantAcc, " | ") {
 				o.FailAt(size.ID+"#accumulation", size.Where(size.Body.Pos()), "payloadSize is accumulated as %v, expected %v", accs, wantAcc)
+			}
+			// what is returned is the accumulator (the legacy size for legacy payloads)
+			if objs, _ := c19LocalDefs(size, "payloadSize"); len(objs) != 1 {
+				o.FailAt(size.ID+"#shadowed-payloadSize", size.Where(size.Body.Pos()), "PayloadSize declares %d variables called payloadSize", len(objs))
+			}
+			for _, s := range size.Returns() {
+				c := size.Canon(s.Node.(*ast.ReturnStmt).Results[0])
+				legacy, _ := size.Guarded(s, an.Truth(an.FieldPath(an.Recv(), "LegacyPayload"), true, ""))
+				o.Site("PayloadSize returns %s (legacy=%v)", an.Text(s.Node.(*ast.ReturnStmt).Results[0]), legacy)
+				switch {
+				case legacy && strings.HasSuffix(c, ".LegacyHopDataSize"):
+				case !legacy && an.Text(s.Node.(*ast.ReturnStmt).Results[0]) == "payloadSize":
+				default:
+					o.FailAt(size.ID+"#returns", s.Where(), "PayloadSize returns %s, expected the accumulated payloadSize", an.Text(s.Node.(*ast.ReturnStmt).Results[0]))
+				}
 			}
 
 			// --- lastHopPayloadSize <-> newRoute --------------------------
@@ -200,6 +256,8 @@ func onionPayloadEstimate(r *an.Run) {
 				}
 			}
 			lh := p.Func("routing.lastHopPayloadSize")
+			notReassigned(o, lh, "r", "finalHtlcExpiry", "amount")
+			sizedHops := map[types.Object]*ast.CompositeLit{}
 			blindedFact := an.IsNil(an.FieldPath(an.Param(0), "BlindedPaymentPathSet"), false, "r.BlindedPaymentPathSet != nil")
 			nLits := 0
 			for _, cl := range p.CompositeLitsOf(p.LookupType("routing/route", "Hop")) {
@@ -227,6 +285,59 @@ func onionPayloadEstimate(r *an.Run) {
 					branch = "blinded"
 					skip = "MPP" // blinded payments have no payment address
 				}
+				// the variable holding the sized hop: a field written after the
+				// literal replaces (or adds to) what the literal says
+				var hopVar types.Object
+				ast.Inspect(lh.Body, func(n ast.Node) bool {
+					if as, ok := n.(*ast.AssignStmt); ok && len(as.Lhs) == len(as.Rhs) {
+						for i, rh := range as.Rhs {
+							rh = ast.Unparen(rh)
+							if u, ok := rh.(*ast.UnaryExpr); ok {
+								rh = ast.Unparen(u.X)
+							}
+							if rh == ast.Expr(lit) {
+								hopVar = c19VarObj(lh, as.Lhs[i])
+							}
+						}
+					}
+					return true
+				})
+				if hopVar == nil {
+					o.FailAt(lh.ID+"#"+branch+"-final-hop-unnamed", cl.Where, "the %s final hop literal is not bound to a variable", branch)
+				} else {
+					sizedHops[hopVar] = lit
+					for fld, ws := range c19FieldWrites(lh, hopVar) {
+						for _, w := range ws {
+							if _, inLit := has[fld]; inLit {
+								o.FailAt(lh.ID+"#"+branch+"-final-hop-overwrites-"+fld, lh.Where(w.Pos()), "%s replaces the %s the sized %s final hop was built with", an.Text(w), fld, branch)
+								continue
+							}
+							if as, ok := w.(*ast.AssignStmt); ok && len(as.Rhs) == 1 {
+								has[fld] = lh.Canon(as.Rhs[0])
+							}
+						}
+					}
+				}
+				// the sized hop carries the amount and expiry of the HTLC that is sent
+				wantVal := map[string]string{"AmtToForward": "$p2", "OutgoingTimeLock": "uint32($p1)"}
+				if !blinded {
+					wantVal["CustomRecords"] = "$p0.DestCustomRecords"
+					wantVal["Metadata"] = "$p0.Metadata"
+				}
+				for _, k := range []string{"AmtToForward", "OutgoingTimeLock", "CustomRecords", "Metadata"} {
+					want, ok := wantVal[k]
+					if got, set := has[k]; ok && set && got != want {
+						o.FailAt(lh.ID+"#"+branch+"-final-hop-value-of-"+k, cl.Where, "the %s final hop that is sized has %s = %s, expected %s (the record's length depends on the value)", branch, k, got, want)
+					}
+				}
+				for _, k := range []string{"AmtToForward", "OutgoingTimeLock"} {
+					if _, set := has[k]; !set {
+						o.FailAt(lh.ID+"#"+branch+"-final-hop-without-"+k, cl.Where, "the %s final hop that is sized has no %s", branch, k)
+					}
+				}
+				if got, set := has["MPP"]; set && !strings.HasPrefix(got, "record.NewMPP(") {
+					o.FailAt(lh.ID+"#"+branch+"-final-hop-value-of-MPP", cl.Where, "the %s final hop that is sized has MPP = %s, expected the record built by record.NewMPP", branch, got)
+				}
 				var keys []string
 				for k := range has {
 					keys = append(keys, k)
@@ -250,6 +361,34 @@ func onionPayloadEstimate(r *an.Run) {
 			if nLits != 2 {
 				o.FailAt(lh.ID+"#hop-literals", lh.Where(lh.Body.Pos()), "expected two sized final hops (blinded, plain), found %d", nLits)
 			}
+			// what is returned is the size of one of those hops, as a final hop (no next channel)
+			nSized := 0
+			for _, s := range lh.Returns() {
+				rs := s.Node.(*ast.ReturnStmt)
+				if len(rs.Results) != 2 || !an.IsNilIdent(lh.Info(), rs.Results[1]) {
+					continue
+				}
+				nSized++
+				o.Site("lastHopPayloadSize returns %s", an.Text(rs.Results[0]))
+				c, _ := ast.Unparen(rs.Results[0]).(*ast.CallExpr)
+				var sel *ast.SelectorExpr
+				if c != nil {
+					sel, _ = c.Fun.(*ast.SelectorExpr)
+				}
+				if sel == nil || an.CalleeID(lh.Info(), c) != "routing/route.Hop.PayloadSize" || len(c.Args) != 1 {
+					o.FailAt(lh.ID+"#returns", s.Where(), "lastHopPayloadSize returns %s, expected the PayloadSize of the final hop it built", an.Text(rs.Results[0]))
+					continue
+				}
+				if lit := sizedHops[c19VarObj(lh, sel.X)]; lit == nil || c19LitOf(lh, sel.X) != lit {
+					o.FailAt(lh.ID+"#returns-other-hop", s.Where(), "lastHopPayloadSize returns the size of %s, which is not (only) the final hop literal examined above", an.Text(sel.X))
+				}
+				if a := lh.Canon(c.Args[0]); a != "0" {
+					o.FailAt(lh.ID+"#next-channel", s.Where(), "the final hop is sized with next channel %s, expected 0 (a final hop has no next hop record)", a)
+				}
+			}
+			if nSized != nLits {
+				o.FailAt(lh.ID+"#sized-returns", lh.Where(lh.Body.Pos()), "expected one returned size per final hop literal (%d), found %d", nLits, nSized)
+			}
 			// the MPP record is built from the payment total
 			for _, fn := range append([]*an.Func{lh}, lh.Lits...) {
 				for _, s := range fn.Calls(an.CalleeNamed("NewMPP"), false) {
@@ -258,14 +397,33 @@ func onionPayloadEstimate(r *an.Run) {
 					id, ok := c.Args[0].(*ast.Ident)
 					fromTotal := false
 					if ok {
-						for _, as := range lh.Assigns(an.LocalNamed(id.Name), false) {
-							if strings.Contains(lh.Canon(as.Node.(*ast.AssignStmt).Rhs[0]), "$p0.TotalAmt") {
+						// max(amount, r.TotalAmt): either the builtin or `t := amount;
+						// if r.TotalAmt > t { t = r.TotalAmt }`
+						objs, defs := c19LocalDefs(lh, id.Name)
+						var forms []string
+						for _, d := range defs {
+							fm := d.form()
+							if d.Rhs != nil {
+								fm = strings.SplitN(fm, " ", 2)[0] + " " + lh.Canon(d.Rhs)
+							}
+							forms = append(forms, fm)
+						}
+						o.Site("lastHopPayloadSize %s: %v", id.Name, forms)
+						switch {
+						case len(objs) != 1:
+						case len(forms) == 1 && (forms[0] == "= max($p2, $p0.TotalAmt)" || forms[0] == "= max($p0.TotalAmt, $p2)"):
+							fromTotal = true
+						case len(forms) == 2 && forms[0] == "= $p2" && forms[1] == "= $p0.TotalAmt" && defs[1].Tok == "=":
+							ds := defs[1].site()
+							larger := an.CmpX(an.FieldPath(an.Param(0), "TotalAmt"), an.GT, an.LocalNamed(id.Name), "r.TotalAmt > "+id.Name)
+							if ok, _ := lh.Guarded(ds, larger); ok {
 								fromTotal = true
 							}
+							onlyGuards(o, lh, ds, []string{`^r\.TotalAmt > ` + id.Name + `$`, `^!\(r\.BlindedPaymentPathSet != nil\)$`}, "MPP total")
 						}
 					}
 					if !fromTotal {
-						o.FailAt(lh.ID+"#mpp-total", s.Where(), "the sized MPP record carries %s, expected a value taken from r.TotalAmt (newRoute puts the payment total into the record)", an.Text(c.Args[0]))
+						o.FailAt(lh.ID+"#mpp-total", s.Where(), "the sized MPP record carries %s, expected the larger of the shard amount and r.TotalAmt: `t := amount; if r.TotalAmt > t { t = r.TotalAmt }` (newRoute puts the payment total into the record)", an.Text(c.Args[0]))
 					}
 				}
 			}
@@ -273,7 +431,7 @@ func onionPayloadEstimate(r *an.Run) {
 			reads := map[string]bool{}
 			ast.Inspect(lh.Body, func(n ast.Node) bool {
 				if sel, ok := n.(*ast.SelectorExpr); ok {
-					if id, ok := sel.X.(*ast.Ident); ok && id.Name == "r" {
+					if ps := lh.Params(false); len(ps) > 0 && c19VarObj(lh, sel.X) == types.Object(ps[0]) {
 						reads[sel.Sel.Name] = true
 					}
 				}
@@ -291,15 +449,55 @@ func onionPayloadEstimate(r *an.Run) {
 					continue
 				}
 				nR++
-				has := map[string]bool{}
+				has := map[string]string{}
 				for _, el := range cl.Node.(*ast.CompositeLit).Elts {
-					has[an.Text(el.(*ast.KeyValueExpr).Key)] = true
+					kv := el.(*ast.KeyValueExpr)
+					has[an.Text(kv.Key)] = cl.Fn.Canon(kv.Value)
 				}
+				// the payment field each restriction is taken from (same name unless listed)
+				source := map[string]string{"TotalAmt": "Amount", "Amp": "amp"}
 				for _, fld := range rd {
-					if !has[fld] {
+					got, set := has[fld]
+					if !set {
 						o.FailAt("routing.paymentSession.RequestRoute#restrictions-without-"+fld, cl.Where, "the restrictions built for a payment attempt do not set %s, which lastHopPayloadSize reads to size the final hop", fld)
+						continue
+					}
+					from := fld
+					if s, ok := source[fld]; ok {
+						from = s
+					}
+					o.Site("RequestRoute restrictions %s = %s", fld, got)
+					if want := "$recv.payment." + from; got != want {
+						o.FailAt("routing.paymentSession.RequestRoute#restrictions-value-of-"+fld, cl.Where, "the restrictions built for a payment attempt set %s = %s, expected the payment's own %s (%s): the final hop is sized from it", fld, got, from, want)
 					}
 				}
+				// no field the size depends on is rewritten after the literal
+				rq := p.Func("routing.paymentSession.RequestRoute")
+				ast.Inspect(rq.Body, func(n ast.Node) bool {
+					as, ok := n.(*ast.AssignStmt)
+					if !ok || len(as.Lhs) != len(as.Rhs) {
+						return true
+					}
+					for i, rh := range as.Rhs {
+						rh = ast.Unparen(rh)
+						if u, ok := rh.(*ast.UnaryExpr); ok {
+							rh = ast.Unparen(u.X)
+						}
+						if rh != ast.Expr(cl.Node.(*ast.CompositeLit)) {
+							continue
+						}
+						v := c19VarObj(rq, as.Lhs[i])
+						if v == nil {
+							continue
+						}
+						for fld, ws := range c19FieldWrites(rq, v) {
+							if reads[fld] {
+								o.FailAt("routing.paymentSession.RequestRoute#restrictions-rewrites-"+fld, rq.Where(ws[0].Pos()), "%s rewrites the restriction %s after it was taken from the payment", an.Text(ws[0]), fld)
+							}
+						}
+					}
+					return true
+				})
 			}
 			if nR != 1 {
 				o.FailAt("routing.paymentSession.RequestRoute#restrictions", "", "expected one RestrictParams literal in RequestRoute, found %d", nR)
@@ -307,7 +505,7 @@ func onionPayloadEstimate(r *an.Run) {
 		})
 
 	r.Obl("hint-policies-flag-their-max-htlc", "TABLE",
-		"amtInRange enforces a policy's MaxHTLC only when HasMaxHTLC is set; therefore every CachedEdgePolicy built in routing (route hints, blinded paths) that sets MaxHTLC also sets HasMaxHTLC",
+		"amtInRange enforces a policy's MaxHTLC only when HasMaxHTLC is set; therefore every CachedEdgePolicy built in routing (route hints, blinded paths) that sets MaxHTLC (in the literal or by a later write to the field) also sets HasMaxHTLC to true",
 		"a maximum that is stored but not flagged is never compared: pathfinding forwards more than the hop accepts", 2,
 		func(o *an.Obl) {
 			n := 0
@@ -316,15 +514,57 @@ func onionPayloadEstimate(r *an.Run) {
 					continue
 				}
 				n++
-				has := map[string]bool{}
-				for _, el := range cl.Node.(*ast.CompositeLit).Elts {
+				lit := cl.Node.(*ast.CompositeLit)
+				root := cl.Fn.Root()
+				isTrue := func(e ast.Expr) bool { return an.BoolConst(true)(cl.Fn, ast.Unparen(e)) }
+				sets, flagged := false, false
+				for _, el := range lit.Elts {
 					if kv, ok := el.(*ast.KeyValueExpr); ok {
-						has[an.Text(kv.Key)] = true
+						switch an.Text(kv.Key) {
+						case "MaxHTLC":
+							sets = true
+						case "HasMaxHTLC":
+							// the flag must be set, not merely mentioned
+							flagged = isTrue(kv.Value)
+						}
 					}
 				}
-				o.Site("%s: policy literal MaxHTLC=%v HasMaxHTLC=%v", cl.Fn.Root().ID, has["MaxHTLC"], has["HasMaxHTLC"])
-				if has["MaxHTLC"] && !has["HasMaxHTLC"] {
-					o.FailAt(cl.Fn.Root().ID+"#MaxHTLC-without-HasMaxHTLC", cl.Where, "%s builds an edge policy with a MaxHTLC but without HasMaxHTLC: amtInRange never compares the maximum", cl.Fn.Root().ID)
+				// fields written after the literal count as well
+				ast.Inspect(root.Body, func(n ast.Node) bool {
+					as, ok := n.(*ast.AssignStmt)
+					if !ok || len(as.Lhs) != len(as.Rhs) {
+						return true
+					}
+					for i, rh := range as.Rhs {
+						rh = ast.Unparen(rh)
+						if u, ok := rh.(*ast.UnaryExpr); ok {
+							rh = ast.Unparen(u.X)
+						}
+						if rh != ast.Expr(lit) {
+							continue
+						}
+						v := c19VarObj(root, as.Lhs[i])
+						if v == nil {
+							continue
+						}
+						for fld, ws := range c19FieldWrites(root, v) {
+							for _, w := range ws {
+								switch fld {
+								case "MaxHTLC":
+									sets = true
+								case "HasMaxHTLC":
+									if was, ok := w.(*ast.AssignStmt); ok && len(was.Rhs) == 1 {
+										flagged = isTrue(was.Rhs[0])
+									}
+								}
+							}
+						}
+					}
+					return true
+				})
+				o.Site("%s: policy literal MaxHTLC=%v HasMaxHTLC=%v", root.ID, sets, flagged)
+				if sets && !flagged {
+					o.FailAt(root.ID+"#MaxHTLC-without-HasMaxHTLC", cl.Where, "%s builds an edge policy with a MaxHTLC but without HasMaxHTLC = true: amtInRange never compares the maximum", root.ID)
 				}
 			}
 			if n < 2 {
